@@ -1,5 +1,6 @@
 import Swat4.Lemmas.ReporterRefine
 import Swat4.Lemmas.ReporterPost
+import Swat4.Lemmas.ReporterAccept
 import Swat4.Properties.C05
 /-!
 # C04 — A valid heartbeat registers/refreshes the sender and gets the exact reply
@@ -729,5 +730,78 @@ example : (dispatch ⟨3⟩ sampleState 0x01010101 1234 (encodeHeartbeat sampleR
 example : WfHeartbeat ⟨[0xde, 0xad, 0xbe, 0xef],
     [(kHostport, [0x31, 0x30, 0x34, 0x38, 0x30]), ([0x78], [0x79]), (kLocalport, [0x31, 0x30, 0x34, 0x38, 0x31]),
      ([0x68, 0x6f, 0x73, 0x74, 0x6e, 0x61, 0x6d, 0x65], [0xff, 0xfe, 0x41])], [0]⟩ := by decide
+
+/-! ## which heartbeats are accepted
+
+Every postcondition above is conditional on the dispatcher answering (`… = .reply r`); a model that answered
+nothing would satisfy them all.  The theorems below say exactly when it answers.  `Rep.Accepts st d ip`
+(Lemmas/ReporterAccept.lean), read off the code path `heartbeat.Handler.Handle` →
+`parseAddrFromHeartbeatParams` → `addr.New` → `reportserver.UseCase.Execute`, is:
+there are integers `hostport`, `localport` with
+* `hostport` = `strconv.Atoi` of the reported `hostport` value and `localport` = `strconv.Atoi` of the reported
+  `localport` value — BOTH must be present and numeric, also for a server that is already known;
+* `1 ≤ hostport ≤ 65535`, and the source IP passes `addr.New` (`ipAccepted`: global unicast, private or loopback);
+* the reported `statechanged` is not `2`;
+* the reported info unmarshals and validates (`infoOf … ≠ none`; field by field: `infoOf_field`);
+* the server `(ip, hostport)` is already stored, or `1 ≤ localport ≤ 65535`. -/
+
+/-- **Acceptance is not vacuous ("if").** A well-formed heartbeat that meets the acceptance conditions IS
+answered, with the 28 reply bytes, in every state satisfying the store invariant. -/
+theorem heartbeat_accepted_if (cfg : Cfg) (st : AbsState) (hinv : Inv st) (d : Hb) (hwf : WfHeartbeat d) (ip port : Nat)
+    (now : Int) (hacc : Accepts st d ip) :
+    (dispatch cfg st ip port (encodeHeartbeat d) now).2 = .reply (replyBytes d.id ip port) := by
+  have href := (heartbeat_refines cfg st hinv d hwf ip port now).2.1
+  rw [absStep_heartbeat_reply_of cfg st d ip port now hacc] at href
+  cases ho : (dispatch cfg st ip port (encodeHeartbeat d) now).2 with
+  | reply b => rw [ho] at href; cases href; rfl
+  | silent => rw [ho] at href; cases href
+  | err => rw [ho] at href; cases href
+  | panic => rw [ho] at href; cases href
+
+/-- **Only those ("only if").** A well-formed heartbeat that is answered meets the acceptance conditions, and the
+answer is the 28 reply bytes. -/
+theorem heartbeat_accepted_only_if (cfg : Cfg) (st : AbsState) (hinv : Inv st) (d : Hb) (hwf : WfHeartbeat d)
+    (ip port : Nat) (now : Int) (r : Bytes) (h : (dispatch cfg st ip port (encodeHeartbeat d) now).2 = .reply r) :
+    r = replyBytes d.id ip port ∧ Accepts st d ip := by
+  have href := (heartbeat_refines cfg st hinv d hwf ip port now).2.1
+  rw [h] at href
+  exact absStep_heartbeat_reply_only cfg st d ip port now r href.symm
+
+/-- **C04, which heartbeats are accepted.** For a well-formed heartbeat `d` from `ip:port` in a state satisfying
+the store invariant: the dispatcher answers with the 28 reply bytes if and only if the acceptance conditions
+hold (and it never answers with anything else: `heartbeat_accepted_only_if`). -/
+theorem heartbeat_accepted_iff (cfg : Cfg) (st : AbsState) (hinv : Inv st) (d : Hb) (hwf : WfHeartbeat d) (ip port : Nat)
+    (now : Int) :
+    (dispatch cfg st ip port (encodeHeartbeat d) now).2 = .reply (replyBytes d.id ip port) ↔ Accepts st d ip :=
+  ⟨fun h => (heartbeat_accepted_only_if cfg st hinv d hwf ip port now _ h).2,
+   heartbeat_accepted_if cfg st hinv d hwf ip port now⟩
+
+/-- the acceptance conditions spelled out (the definition of `Rep.Accepts`, so that the statement above can be
+read without opening the lemma file) -/
+theorem accepts_def (st : AbsState) (d : Hb) (ip : Nat) :
+    Accepts st d ip ↔ ∃ hostport localport : Int,
+      ((fieldsOf d.kvs).get? kHostport).bind atoi = some hostport ∧
+      ((fieldsOf d.kvs).get? kLocalport).bind atoi = some localport ∧
+      1 ≤ hostport ∧ hostport ≤ 65535 ∧ ipAccepted ip = true ∧
+      (fieldsOf d.kvs).get? kStatechanged ≠ some [0x32] ∧
+      (infoOf (fieldsOf d.kvs)).isSome = true ∧
+      ((st.servers[(⟨ip, hostport⟩ : Addr).key]?).isSome = true ∨ (1 ≤ localport ∧ localport ≤ 65535)) := Iff.rfl
+
+/-- a known server is refreshed whatever `localport` says, as long as it is a number: the reviewer's guess
+"row exists or localport in range" needs the extra condition that `localport` parses — without the pair the
+heartbeat is dropped even for a known server (`parseAddrFromHeartbeatParams` reads both before anything else) -/
+theorem heartbeat_without_localport_dropped (cfg : Cfg) (st : AbsState) (hinv : Inv st) (d : Hb) (hwf : WfHeartbeat d)
+    (ip port : Nat) (now : Int) (hno : (fieldsOf d.kvs).get? kLocalport = none) (r : Bytes) :
+    (dispatch cfg st ip port (encodeHeartbeat d) now).2 ≠ .reply r := by
+  intro h
+  obtain ⟨_, _, _, _, hl, _⟩ := heartbeat_accepted_only_if cfg st hinv d hwf ip port now r h
+  rw [hno] at hl
+  cases hl
+
+set_option maxRecDepth 20000 in
+/-- `sampleHb` meets the acceptance conditions in the empty store (first report: `localport` 10481 in range), so
+`heartbeat_accepted_if` applies to it -/
+example : Accepts {} sampleHb 0x01010101 :=
+  ⟨10480, 10481, by decide, by decide, by decide, by decide, by decide, by decide, by decide, .inr ⟨by decide, by decide⟩⟩
 
 end Swat4.C04
